@@ -177,6 +177,8 @@ theorem addLine_lineOf (neg abs dir : Bool) (h : CoreOK ci core) :
   simp only [hne2, Bool.false_eq_true, ↓reduceIte]
   rw [splitDirSlash_core dir hlast ⟨hl47, hl92⟩]
   simp only
+  have hne3 : (core).isEmpty = false := by rw [hcore]; simp
+  simp only [hne3, Bool.and_false, Bool.false_eq_true, ↓reduceIte]
   rw [actualOf_simple abs h]
   unfold rgGlobW
   cases hs : (!abs && !core.contains 47)
